@@ -184,7 +184,7 @@ func TestC15_SignVerify(t *testing.T) {
 		}
 
 		// tampering
-		mut := rapid.IntRange(0, 11).Draw(t, "tamper")
+		mut := rapid.IntRange(0, 12).Draw(t, "tamper")
 		var bad string
 		badKey := jwk
 		label := ""
@@ -245,6 +245,17 @@ func TestC15_SignVerify(t *testing.T) {
 			} else {
 				bad, label = seg[0]+"."+seg[1]+".", "signature-empty"
 			}
+		case 12: // header parameter names MUST be unique (RFC 7515 section 4); the signature is over the header without the duplicate
+			firsts := []string{`"alg":"none"`, `"alg":"` + alg + `"`}
+			if kid != "" {
+				firsts = append(firsts, `"kid":"other"`)
+			}
+			first := rapid.SampledFrom(firsts).Draw(t, "dupMember")
+			dup := "{" + first + "," + string(hb[1:])
+			if rapid.Bool().Draw(t, "dupLast") {
+				dup = string(hb[:len(hb)-1]) + "," + string(hb[1:])
+			}
+			bad, label = b64([]byte(dup))+"."+seg[1]+"."+seg[2], "header-duplicate-member"
 		case 8: // malformed segment split
 			switch rapid.IntRange(0, 3).Draw(t, "split") {
 			case 0:
